@@ -942,7 +942,9 @@ def dispatch_model(ck, fa, pairs):
     if k not in memo:
         try:
             memo[k] = Dispatch(fa, pairs)
-        except (_Unsupported, RecursionError):
+        except AnalysisError:
+            raise
+        except Exception:  # a construct the abstract run does not model: the callers fall back / fail closed
             memo[k] = None
     return memo[k]
 
@@ -1021,10 +1023,13 @@ def check_ladder_order(ck, rule, fa: FA, ladder, pairs, label):
     is_handlers = bool(ladder) and all(isinstance(nd, ast.ExceptHandler) for (_t, _o, nd) in ladder)
     D = None if is_handlers else dispatch_model(ck, fa, pairs)
     if D is not None:
+        n_before = len(ck.obs)
         try:
             return _check_dispatch_order(ck, rule, fa, D, pairs, label)
-        except _Unsupported:
-            pass
+        except AnalysisError:
+            raise
+        except Exception:
+            del ck.obs[n_before:]
     return _check_ladder_order_by_rungs(ck, rule, fa, ladder, pairs, label)
 
 
